@@ -540,6 +540,25 @@ func (x *Exec) scanStaticCallee(st *State, fr *Frame, fn *ssa.Function, binds []
 	c := x.contractOf(key)
 	if c != nil && !c.Inline {
 		x.scanContractAssigns(c, key, fn, ws)
+		// callbacks the callee iterates: what the closure writes is written
+		for _, it := range c.Iterates {
+			for i, p := range fn.Params {
+				if p.Name() != it.Param || i >= len(args) {
+					continue
+				}
+				if av, ok := x.scanFuncValue(st, fr, args[i]); ok {
+					x.scanFunc(st, fr, av.Fn, av.Binds, ws, depth+1)
+				} else if mc, ok := args[i].(*ssa.MakeClosure); ok {
+					var bs []Value
+					for _, b := range mc.Bindings {
+						bs = append(bs, fr.regs[b])
+					}
+					x.scanFunc(st, fr, mc.Fn.(*ssa.Function), bs, ws, depth+1)
+				} else {
+					ws.all = true
+				}
+			}
+		}
 		return
 	}
 	if _, ok := models[key]; ok {
@@ -632,7 +651,7 @@ func (x *Exec) scanContractAssigns(c *FuncContract, key string, fn *ssa.Function
 			}
 			n, s := x.fieldHeapName(t, idx)
 			ws.heaps[n] = s
-		case "elems":
+		case "elems", "region":
 			env := &SpecEnv{x: x, pkg: x.pkgOfKey(key, fn)}
 			t := env.staticTypeOf(a.E, fn, c)
 			if sl, ok := t.Underlying().(*types.Slice); ok && t != nil {
